@@ -73,8 +73,8 @@ void GreensFunctionPart::compute(void)
                 ++CXinner;  // The next non-zero element
             }else{
                 // Chasing: one index runs down the other index
-                if(CX_index2 < C_index2) for(;QuantumState(CXinner.index())<C_index2; ++CXinner);
-                else for(;QuantumState(Cinner.index())<CX_index2; ++Cinner);
+                if(CX_index2 < C_index2) for(;CXinner && QuantumState(CXinner.index())<C_index2; ++CXinner);
+                else for(;Cinner && QuantumState(Cinner.index())<CX_index2; ++Cinner);
             }
         }
     }
